@@ -220,9 +220,14 @@ def case_pipe(ctx, inp):
     cval = np.asarray(classic.compute(scheduler="sync"))
     if not U.same_values(val, cval, exact, U.fsum_abs(ref)):
         ctx.fail("expression engine value differs from the classic engine", observed=val.tolist(), expected=cval.tolist())
-    if [list(map(int, c)) for c in classic.chunks] != ans["lazy_chunks"]:
-        ctx.fail("expression engine chunks differ from the classic engine", observed=ans["lazy_chunks"],
-                 expected=[list(map(int, c)) for c in classic.chunks])
+    cchunks = [list(map(int, c)) for c in classic.chunks]
+    if cchunks != ans["lazy_chunks"]:
+        sig = None
+        strip = lambda cs: [[x for x in c if x] or [0] for c in cs]     # noqa: E731
+        if (any(0 in c for c in cchunks) or any(0 in c for c in ans["lazy_chunks"])) and strip(cchunks) == strip(ans["lazy_chunks"]):
+            sig = "expr:zero-length-chunk:chunks-differ-from-classic"
+            ctx.branch("known: zero-length chunk kept by one engine only")
+        ctx.fail("expression engine chunks differ from the classic engine", sig=sig, observed=ans["lazy_chunks"], expected=cchunks)
     if str(classic.dtype) != ans["lazy_dtype"]:
         ctx.fail("expression engine dtype differs from the classic engine", observed=ans["lazy_dtype"], expected=str(classic.dtype))
     if ans["opt_chunks"] != ans["lazy_chunks"]:
@@ -359,7 +364,15 @@ def _pipe_prog(rng, shape, depth):
     if r < 0.15:
         return {"op": "unary", "fn": rng.choice(["negative", "abs", "square"]), "a": _pipe_prog(rng, shape, depth - 1)}
     if r < 0.4:
-        b = {"scalar": rng.randint(-3, 3)} if rng.random() < 0.25 else _pipe_prog(rng, shape if rng.random() < 0.8 else shape[-1:], depth - 1)
+        rb = rng.random()
+        if rb < 0.25:
+            b = {"scalar": rng.randint(-3, 3)}
+        elif rb < 0.8:
+            b = _pipe_prog(rng, shape, depth - 1)
+        elif rb < 0.9:
+            b = _pipe_prog(rng, shape[-1:], depth - 1)
+        else:
+            b = _pipe_prog(rng, tuple(n if rng.random() < 0.5 else 1 for n in shape), depth - 1)
         return {"op": "binary", "fn": rng.choice(["add", "subtract", "multiply", "maximum"]), "a": _pipe_prog(rng, shape, depth - 1), "b": b}
     if r < 0.55:
         # slice a bigger array down to `shape`
@@ -401,12 +414,16 @@ def _pipe_prog(rng, shape, depth):
         return {"op": "getitem", "index": index, "a": _pipe_prog(rng, tuple(big), depth - 1)}
     if r < 0.7:
         return {"op": "rechunk", "chunks": [list(c) for c in U.rand_chunks(rng, shape)], "a": _pipe_prog(rng, shape, depth - 1)}
-    if r < 0.82 and len(shape) >= 1 and shape[0] >= 2:
-        k = rng.randint(1, shape[0] - 1)
-        return {"op": "concatenate", "axis": 0, "args": [_pipe_prog(rng, (k,) + tuple(shape[1:]), depth - 1),
-                                                         _pipe_prog(rng, (shape[0] - k,) + tuple(shape[1:]), depth - 1)]}
+    if r < 0.82 and len(shape) >= 1 and max(shape) >= 2:
+        ax = rng.choice([i for i, n in enumerate(shape) if n >= 2])
+        cuts = sorted(rng.sample(range(1, shape[ax]), rng.randint(1, min(2, shape[ax] - 1))))
+        sizes = [b - a for a, b in zip([0] + cuts, cuts + [shape[ax]])]
+        args = [_pipe_prog(rng, tuple(shape[:ax]) + (k,) + tuple(shape[ax + 1:]), depth - 1) for k in sizes]
+        return {"op": "concatenate", "axis": rng.choice([ax, ax - len(shape)]), "args": args}
     if r < 0.9 and len(shape) >= 2:
-        return {"op": "stack", "axis": 0, "args": [_pipe_prog(rng, tuple(shape[1:]), depth - 1) for _ in range(shape[0])]}
+        ax = rng.randrange(len(shape))
+        sub = tuple(shape[:ax]) + tuple(shape[ax + 1:])
+        return {"op": "stack", "axis": rng.choice([ax, ax - len(shape)]), "args": [_pipe_prog(rng, sub, depth - 1) for _ in range(shape[ax])]}
     if r < 0.96:
         return {"op": "map_blocks", "fn": rng.choice(["double", "addone"]), "a": _pipe_prog(rng, shape, depth - 1)}
     return {"op": "astype", "dtype": "float64", "a": _pipe_prog(rng, shape, depth - 1)}
